@@ -136,10 +136,15 @@ outer2:
 			ret = append(ret, del)
 		} else {
 			// Give up patching individual entries, replace the whole list
-			dst = slices.Clone(dst)
-			dst = append(dst, map[string]any{"$replace": true})
-			return dst, nil
+			return replaceList(dst), nil
 		}
+	}
+
+	// Appends and $delete entries cannot express every edit (reordered,
+	// duplicated or inserted entries, a $delete pattern that also matches
+	// entries to keep). Only use the patch if it really produces dst.
+	if !listPatchWorks(src, dst, ret) {
+		return replaceList(dst), nil
 	}
 
 	if len(ret) == 0 {
@@ -147,4 +152,28 @@ outer2:
 	}
 
 	return ret, nil
+}
+
+func replaceList(dst []any) []any {
+	dst = slices.Clone(dst)
+	return append(dst, map[string]any{"$replace": true})
+}
+
+func listPatchWorks(src, dst, patch []any) bool {
+	p, err := bkl.New()
+	if err != nil {
+		return false
+	}
+
+	base := bkl.NewDocumentWithData("base", map[string]any{"list": slices.Clone(src)})
+	layer := bkl.NewDocumentWithData("layer", map[string]any{"list": slices.Clone(patch)})
+	layer.AddParents(base)
+
+	if p.MergeDocument(base) != nil || p.MergeDocument(layer) != nil {
+		return false
+	}
+
+	merged, ok := p.Documents()[0].Data.(map[string]any)
+
+	return ok && reflect.DeepEqual(merged["list"], any(dst))
 }
